@@ -144,6 +144,28 @@ Section Plain.
     destruct (v_nillable var); reflexivity.
   Qed.
 
+  (* generic elements *)
+  Lemma plain_any x : forall k, (odepth x <= k)%nat -> fits_anyel x = true -> plain_tree (e_any x) = true.
+  Proof.
+    intros k. revert x. induction k as [|k IH]; intros x Hd Hf;
+      destruct (fits_anyel_inv x Hf) as [q [s [a [ch [-> [Hq [Hnd [Hat [Hs Hch]]]]]]]]]; [cbn [odepth] in Hd; lia|].
+    cbn [e_any plain_tree].
+    apply andb_true_iff. split; [apply andb_true_iff; split|].
+    - apply forallb_forall. intros ea Hea. apply in_map_iff in Hea as [kv [<- _]]. reflexivity.
+    - apply NoDup_nodup_by. rewrite map_map. cbn [fst].
+      assert (E : map (fun x0 : qname * str => clark_of (Bind.split_qname (fst x0))) a = map fst a).
+      { apply map_ext. intros kv. apply clark_split. }
+      rewrite E. exact Hnd.
+    - assert (Hkids : forallb plain_tree (map e_any ch) = true).
+      { apply forallb_forall. intros e He. apply in_map_iff in He as [y [<- Hy]].
+        apply IH; [pose proof (odepth_anychild (Some q) (Some s) None a ch y Hy) as Hlt; cbn [odepth] in Hlt, Hd; lia|apply Hch; exact Hy]. }
+      destruct ch as [|c1 chr].
+      + cbn [map app]. rewrite app_nil_r. destruct s as [|c0 s']; [reflexivity|]. reflexivity.
+      + rewrite (Hs ltac:(discriminate)). cbn [app].
+        destruct (fits_anyel_inv c1 (Hch c1 (or_introl eq_refl))) as [q1 [s1 [a1 [ch1 [E1 _]]]]].
+        cbn [map] in Hkids |- *. rewrite E1 in Hkids |- *. cbn [e_any] in Hkids |- *. exact Hkids.
+  Qed.
+
   Lemma plain_obj : forall n cl o qn, wfr cl -> fits n cl o = true -> noq o = true -> exact_classes u n cl o = true ->
     plain_tree (eobj n qn o) = true.
   Proof.
@@ -179,7 +201,7 @@ Section Plain.
       destruct (m_text m) as [tv|] eqn:Htx.
       + destruct (wf_class_inv m Hwc) as [F1 F2 F3 F4 F5 F6 F7 F8 F9 F10 F11 F12 F13].
         rewrite Htx in F11. destruct F11 as [Hwt Hnoe].
-        assert (Hevars : get_element_vars m = [tv]) by (rewrite (evars_eq m Hwc), Hnoe, Htx; reflexivity).
+        assert (Hevars : get_element_vars m = [tv]) by (rewrite (evars_eq m Hwc), Hnoe, Htx, (text_no_wild m tv Hwc Htx); reflexivity).
         assert (Hpairs : pairs cl fs m = emit1 fs tv).
         { rewrite (pairs_plain cl fs m Hwc Hnames), Hevars; [cbn [flat_map]; apply app_nil_r|].
           intros var Hv. rewrite Hevars in Hv. destruct Hv as [<-|[]].
@@ -202,10 +224,23 @@ Section Plain.
       + assert (Hall : forall e, In e (flat_map (fun vv => RoundtripGen.e_field c u (eobj n) (fst vv) (snd vv)) (pairs cl fs m)) ->
                   (exists q a k, e = EElem q a k) /\ plain_tree e = true).
         { intros e He. apply in_flat_map in He as [[var x] [Hvv He]]. cbn [fst snd] in He.
-          destruct (pair_facts c u ok cl fs m Hwc Hmc Hnames n Hfe (var, x) Htx Hvv) as [Hvar [Hev [Hok0 _]]]. cbn [fst snd] in *.
-          rewrite (e_field_occ c u ign m n var _ Hev) in He.
+          assert (Hfw : forall wv, m_wildcards m = [wv] -> fits_wild u m wv (field_of fs wv) = true)
+            by (intros wv Hwv; apply (fits_wildvar c u ok py_isspace n cl fs m wv Hfit Hm Hwv)).
+          destruct (pair_facts c u ok cl fs m Hwc Hmc Hnames n Hfe Hwf Hm Hfw (var, x) Htx Hvv) as [Hvar [Hio _]]. cbn [fst snd] in *.
+          pose proof (kid_ok_kid c u ok m n var _ Hio) as Hkid.
+          rewrite (e_field_occ c u ign m n var _ Hkid) in He.
+          assert (Hitem : forall y, In y (occ var x) ->
+                    (exists q a k, ienode c u ign n var y = EElem q a k) /\ plain_tree (ienode c u ign n var y) = true).
+          { destruct Hio as [[Hev Hok0]|[Hwv Hall0]].
+            2:{ intros y Hy. rewrite Forall_forall in Hall0. specialize (Hall0 y Hy).
+                unfold fits_any_top in Hall0. apply andb_true_iff in Hall0 as [Hfy _].
+                destruct (wild_facts m var Hwv) as [_ [_ [_ [_ [_ [_ [_ [Htfw _]]]]]]]].
+                unfold ienode. rewrite Htfw.
+                destruct (fits_anyel_inv y Hfy) as [q0 [s0 [a0 [ch0 [Ey _]]]]]. rewrite Ey. cbn [RoundtripGen.e_item]. rewrite <- Ey.
+                split; [|apply (plain_any y (odepth y) (le_n _) Hfy)].
+                rewrite Ey. cbn [e_any]. eauto. }
           assert (Hnx : noq x = true).
-          { destruct (ps_src _ _ _ _ (class_pairs_fits c u ok _ _ cl fs m Hwc Hnames Hfe) (var, x) Hvv) as [_ [_ [Hw|[f0 [t0 [l0 [_ [_ [_ [El Hil]]]]]]]]]]; cbn [fst snd] in *.
+          { destruct (ps_src _ _ _ _ (class_pairs_fits c u ok _ _ cl fs m Hwc Hnames Hfe Hfw) (var, x) Hvv) as [_ [_ [Hw|[f0 [t0 [l0 [_ [_ [_ [El Hil]]]]]]]]]]; cbn [fst snd] in *.
             - unfold pair_whole in Hw. cbn [fst snd] in Hw. rewrite Hw. apply (noq_field cl fs var Hnq).
             - apply (noq_item t0 l0 x); [rewrite <- El; apply (noq_field cl fs var Hnq)|exact Hil]. }
           assert (Hexy : forall kd y, v_clazz var = Some kd -> v_tokens_factory var = None -> In y (occ var x) -> y <> VNone ->
@@ -216,7 +251,7 @@ Section Plain.
             cbn [exact_classes] in Hex. rewrite Hm in Hex. apply andb_true_iff in Hex as [_ Hex].
             destruct Hev as [_ Hine]. rewrite forallb_forall in Hex. specialize (Hex _ Hine). cbn [snd forallb] in Hex.
             rewrite andb_true_r, Hcl in Hex.
-            destruct (ps_src _ _ _ _ (class_pairs_fits c u ok _ _ cl fs m Hwc Hnames Hfe) (var, x) Hvv)
+            destruct (ps_src _ _ _ _ (class_pairs_fits c u ok _ _ cl fs m Hwc Hnames Hfe Hfw) (var, x) Hvv)
               as [_ [Hxn [Hw|[f0 [t0 [l0 [_ [_ [_ [El Hil]]]]]]]]]]; cbn [fst snd] in *.
             - unfold pair_whole in Hw. cbn [fst snd] in Hw. rewrite <- Hw in Hex.
               unfold occ in Hy. rewrite Htf in Hy. destruct x as [| |tt l| | | |]; try (now destruct (Hnone Hy)); try destruct Hy as [<-|[]]; try exact Hex; try congruence.
@@ -224,8 +259,6 @@ Section Plain.
             - rewrite El in Hex. rewrite forallb_forall in Hex. specialize (Hex x Hil).
               unfold occ in Hy. rewrite Htf in Hy. destruct x as [| |tt l| | | |]; try (now destruct (Hnone Hy)); try destruct Hy as [<-|[]]; try exact Hex; try congruence.
               destruct n; discriminate Hex. }
-          assert (Hitem : forall y, In y (occ var x) ->
-                    (exists q a k, ienode c u ign n var y = EElem q a k) /\ plain_tree (ienode c u ign n var y) = true).
           { intros y Hy.
             pose proof Hok0 as Hok.
             rewrite Forall_forall in Hok. specialize (Hok y Hy).
@@ -263,7 +296,7 @@ Section Plain.
                 split; [unfold RoundtripGen.e_prim; eauto|]. apply (plain_prim var t). apply vs_tokens. exact Htk.
               + destruct (fits_item_simple c u ok _ var t y Hty Hst Hok) as [p [-> Hp]].
                 cbn [RoundtripGen.e_item]. split; [unfold RoundtripGen.e_prim; eauto|].
-                apply (plain_prim var t). apply vs_leaf. exact Hp. }
+                apply (plain_prim var t). apply vs_leaf. exact Hp. } }
           assert (Hitems : In e (map (ienode c u ign n var) (occ var x)) ->
                     (exists q a k, e = EElem q a k) /\ plain_tree e = true).
           { intros Hi. apply in_map_iff in Hi as [y [<- Hy]]. apply Hitem. exact Hy. }
